@@ -14,7 +14,7 @@ Widths: 1, 2, 3, 4, 6, 8, 16 (quick) + 32 (thorough; quick runs 32 for the multi
 families where the code switches algorithm).
 """
 from .common import *
-from . import c02 as g02, c03 as g03, c05 as g05, c06 as g06, c07 as g07, c10 as g10, c20 as g20
+from . import c02 as g02, c03 as g03, c05 as g05, c06 as g06, c07 as g07, c10 as g10, c19 as g19, c20 as g20
 
 RULE = ('one line = one route family (2..33 routes of the same operation, listed in harness/src/ops/c15.rs) executed on '
         'one input from the directed families of C02-C07, C20 (see tools/gen/c15.py) + seeded structured random; every '
@@ -109,31 +109,33 @@ def gen(tier, rng):
             yield f"c15.is_zero {n} {hx(a)}"
             yield f"c15.is_odd {n} {hx(a)}"
         # ------------------------------------------------------------ C05 shifts and bit queries
-        full = bits <= 128 or not quick
+        full = bits <= (128 if quick else 256)
+        nsamp = 24 if quick else 96
         vals = g05.special_values(n)
-        if quick and len(vals) > 14:
-            vals = vals[:8] + rng.sample(vals[8:], 6)
-        vals += [value(rng, n) for _ in range(3 if quick else 12)]
+        if len(vals) > (14 if quick else 28):
+            k0 = 8 if quick else 14
+            vals = vals[:k0] + rng.sample(vals[k0:], k0 - 2)
+        vals += [value(rng, n) for _ in range(3 if quick else 8)]
         shifts = g05.shifts_for(bits, full)
         shifts = [s for s in shifts if s <= bits + 2 or s >= (1 << 31)]
         for x in vals:
-            ss = shifts if (not quick or bits <= 128) else uniq(shifts[:3] + rng.sample(shifts, 24) + shifts[-6:])
+            ss = shifts if full else uniq(shifts[:3] + rng.sample(shifts, min(nsamp, len(shifts))) + shifts[-6:])
             for s in ss:
                 fam = ('shl', 'shr', 'oshl', 'oshr', 'wshl', 'wshr')
-                for f in (fam if not quick or bits <= 64 else rng.sample(fam, 3)):
+                for f in (fam if bits <= 64 or (not quick and bits <= 128) else rng.sample(fam, 3)):
                     yield f"c15.{f} {n} {hx(x)} {s}"
         qvals = uniq(g05.special_values(n) + [value(rng, n) for _ in range(reps)])
-        if quick and len(qvals) > 40:
-            qvals = qvals[:10] + rng.sample(qvals[10:], 30)
+        if len(qvals) > (40 if quick else 120):
+            qvals = qvals[:10] + rng.sample(qvals[10:], 30 if quick else 110)
         sb = g05.single_bits(n)
-        if quick and len(sb) > 40:
-            sb = rng.sample(sb, 40)
+        if len(sb) > (40 if quick else 256):
+            sb = rng.sample(sb, 40 if quick else 256)
         for x in qvals + sb:
             for f in ('bits', 'lz', 'tz', 'to'):
                 yield f"c15.{f} {n} {hx(x)}"
-        idx = g05.indices_for(bits, bits <= 128 or not quick)
-        for x in [0, m - 1] + [value(rng, n) for _ in range(2 if quick else 8)]:
-            ii = idx if not quick or bits <= 128 else uniq(idx[:2] + rng.sample(idx, 30) + idx[-4:])
+        idx = g05.indices_for(bits, full)
+        for x in [0, m - 1] + [value(rng, n) for _ in range(2 if quick else 6)]:
+            ii = idx if full else uniq(idx[:2] + rng.sample(idx, min(30 if quick else 120, len(idx))) + idx[-4:])
             for i in ii:
                 yield f"c15.bit {n} {hx(x)} {i}"
                 yield f"c15.set_bit {n} {hx(x)} {i} {rng.randrange(2)}"
@@ -217,6 +219,61 @@ def gen(tier, rng):
             for x in uniq([0, 1, m - 1, l, l - 1, (l << (64 * (n - 1))) % m, ((l << (64 * (n - 1))) - 1) % m]
                           + [value(rng, n) for _ in range(3 if quick else 12)]):
                 yield f"c15.divlimb {n} {hx(x)} {hx(l)}"
+
+
+    # ---------------------------------------------------------------- C13 / C14: Int<N> routes
+    for n in widths:
+        bits = 64 * n
+        m = 1 << bits
+        MIN, MAX = m >> 1, (m >> 1) - 1
+        edge = [MIN, MIN + 1, m - 1, 0, 1, MAX, MAX - 1, m - 2, 2]
+        ps = [(a, b) for a in edge for b in edge[: (6 if quick else 9)]]
+        ps += [pair(rng, n) for _ in range(reps)]
+        ps += [(value(rng, n), value(rng, n)) for _ in range(reps)]
+        # products at the edge of fitting: |a|*|b| around 2^(BITS-1)
+        for _ in range(reps):
+            i = rng.randrange(1, bits - 1)
+            a, b = 1 << i, 1 << (bits - 1 - i)
+            for sa in (a, (m - a) % m):
+                for sb in (b, (m - b) % m, b - 1, (m - b + 1) % m):
+                    ps.append((sa, sb % m))
+        if quick and len(ps) > 90:
+            ps = ps[:50] + rng.sample(ps[50:], 40)
+        for a, b in ps:
+            a %= m; b %= m
+            fams = ('add', 'sub', 'cadd', 'csub', 'cmul', 'cmp')
+            for f in (fams if not quick or n <= 2 else rng.sample(fams, 3)):
+                yield f"c15.i.{f} {n} {hx(a)} {hx(b)}"
+            if b != 0:
+                yield f"c15.i.div {n} {hx(a)} {hx(b)}"
+        for a in uniq(edge + [value(rng, n) for _ in range(reps)]):
+            a %= m
+            yield f"c15.i.neg {n} {hx(a)}"
+            for s in uniq([0, 1, 63, 64, 65, bits - 1, bits, bits + 1, U32MAX] + [rng.randrange(bits) for _ in range(3)]):
+                yield f"c15.i.shr {n} {hx(a)} {s}"
+                yield f"c15.i.wshr {n} {hx(a)} {s}"
+
+    # ---------------------------------------------------------------- C16 / C17 / C19 (per alias: 1,2,3,4,6,8,16 limbs)
+    for n in C10_W:
+        bits = 64 * n
+        m = 1 << bits
+        vals = uniq(g05.special_values(n)[:10] + [value(rng, n) for _ in range(reps)] + [rng.getrandbits(bits) for _ in range(3)])
+        for v in vals:
+            yield f"c15.enc {n} {hx(v)}"
+            yield "c15.dec %d x%s" % (n, v.to_bytes(8 * n, 'big').hex())
+        rvals = uniq([0, 1, m - 1, m >> 1] + [value(rng, n) for _ in range(2 if quick else 10)])
+        for r in range(2, 37):
+            for v in (rvals if not quick or n <= 2 else rng.sample(rvals, 2)):
+                yield f"c15.radix {n} {hx(v)} {r}"
+            for j in ([1, 2, 13] if quick else range(1, 40)):
+                for v in (r ** j, r ** j - 1):
+                    if 0 <= v < m and (not quick or rng.randrange(3) == 0):
+                        yield f"c15.radix {n} {hx(v)} {r}"
+    for n in [1, 2, 3, 4, 8]:
+        ms = g19.moduli(rng, n, 'quick')
+        for (mod, nl) in (rng.sample(ms, min(len(ms), 12)) if quick else ms):
+            for st in g19.mod_streams(rng, mod, nl, 'quick'):
+                yield f"c15.rand {n} {hx(mod)} {g19.xb(st)}"
 
     # ---------------------------------------------------------------- C10: inversion mod 2^k, odd modulus (precomputed vs one-shot), gcd
     lines = []
